@@ -62,6 +62,7 @@ def run_case(case):
         btp = fac.RecBTP(clock)
         den = DecentralizedEnvironmentalNotificationService(btp, VehicleData(station_id=case["station_id"], station_type=5))
         t_base = clock.now
+        shared_app = [None]
         events = []
         for i, e in enumerate(case["events"]):
             lat = int(e["lat"] * 1e7) + i * 13          # distinct positions per event
@@ -77,7 +78,11 @@ def run_case(case):
                    "altitude": {"altitudeValue": 800001, "altitudeConfidence": "unavailable"}}
             try:
                 if e["kind"] == "emergency_app":
-                    app = EmergencyVehicleApproachingService(den, duration=e["duration"])
+                    # one application instance per station, as deployed: its settings are updated from event to event
+                    if shared_app[0] is None:
+                        shared_app[0] = EmergencyVehicleApproachingService(den, duration=e["duration"])
+                    app = shared_app[0]
+                    app.denm_duration = e["duration"]
                     app.denm_interval = e["interval"]
                     app.trigger_denm_sending({"lat": e["ilat"] / 1e7, "lon": e["ilon"] / 1e7})
                     # the application converts degrees back to 1/10 microdegree: recompute what it will use
